@@ -89,11 +89,20 @@ def build_argv(v, outdir):
     return argv
 
 
-def fresh_outdir(tag='gen'):
-    d = os.path.join(solverio.workdir(), tag)
-    if os.path.exists(d):
-        shutil.rmtree(d)
-    return d
+def fresh_outdir(tag='gen', nested=False):
+    """A not yet existing output directory; nested=True: its parent does not exist either
+    (the README layout `-o ./hr/instances`)."""
+    top = os.path.join(solverio.workdir(), tag)
+    if os.path.exists(top):
+        shutil.rmtree(top)
+    return os.path.join(top, 'hr', 'instances') if nested else top
+
+
+def outdir_top(outdir):
+    """The top-level scratch directory of an outdir returned by fresh_outdir."""
+    w = solverio.workdir()
+    rel = os.path.relpath(outdir, w)
+    return os.path.join(w, rel.split(os.sep)[0])
 
 
 @st.composite
